@@ -10,8 +10,6 @@ Close Scope string_scope.
 Open Scope list_scope.
 
 (* ------------------------------------------------------------------ prefixes, concretely *)
-Definition tail_ok (rest : bytes) : Prop := rest = [] \/ exists r, rest = sl :: r.
-
 Lemma noslash_split a : forall b x y, noslash a -> noslash b -> a ++ sl :: x = b ++ sl :: y -> a = b /\ x = y.
 Proof.
   induction a as [|ch a IH]; intros [|dh b] x y Ha Hb E; cbn in E.
@@ -25,18 +23,6 @@ Qed.
 Lemma noslash_tail a b r : noslash a -> a <> b ++ sl :: r.
 Proof. intros Ha ->. apply Ha. apply in_or_app. right. now left. Qed.
 
-Lemma at_or_under_ext a q : beq a root = false -> at_or_under a q = true -> exists rest, q = a ++ rest /\ tail_ok rest.
-Proof.
-  intros Hr H. destruct (at_or_under_cases a q H) as [[-> _]|(a' & r & -> & _ & [->|[-> _]])].
-  - exists []. rewrite app_nil_r. split; [reflexivity|now left].
-  - exists (sl :: r). split; [reflexivity|right; now exists r].
-  - rewrite beq_refl in Hr. discriminate.
-Qed.
-Lemma at_or_under_intro a rest : beq a root = false -> tail_ok rest -> at_or_under a (a ++ rest) = true.
-Proof.
-  intros Hr [->|[r ->]]; [rewrite app_nil_r; apply at_or_under_refl|].
-  unfold at_or_under, under. rewrite Hr. apply orb_true_iff. right. apply prefixb_spec. exists r. now rewrite <- app_assoc.
-Qed.
 Lemma tail_ok_app r1 r2 : tail_ok r1 -> tail_ok r2 -> tail_ok (r1 ++ r2).
 Proof. intros [->|[r ->]] H2; [exact H2|]. right. now exists (r ++ r2). Qed.
 
